@@ -23,6 +23,7 @@ from tempfile import TemporaryDirectory
 from threading import RLock
 
 from synced_collections.backends.collection_json import BufferedJSONAttrDict
+from synced_collections.data_types import SyncedCollection
 
 from ._config import (
     _Config,
@@ -382,6 +383,12 @@ class Project:
             The new project document.
 
         """
+        if isinstance(new_doc, SyncedCollection):
+            # Resolve to plain data before resetting. Assigning the document
+            # handle to itself (project.doc = project.doc) would otherwise
+            # iterate over its own not yet loaded data and overwrite the file
+            # with {}.
+            new_doc = new_doc()
         with self._lock:
             self.document.reset(new_doc)
 
